@@ -27,6 +27,7 @@ class Mutant:
     edit: object             # callable(source) -> new source | None
     expect: str              # rule id expected in a VIOLATION
     desc: str = ''
+    alts: tuple = ()         # other rule ids that count as reporting the same change
 
 
 # ------------------------------------------------------------------ AST-located edits
@@ -143,7 +144,7 @@ def run_mutant(pid: str, m: Mutant, keep=False):
                     rules.add(json.loads(Path(rp).read_text())['rule'])
                 except Exception:
                     pass
-        if p.returncode == 1 and m.expect in rules:
+        if p.returncode == 1 and ({m.expect, *m.alts} & rules):
             return m, 'killed', ','.join(sorted(rules))
         if p.returncode == 2:
             return m, 'analysis-error', p.stdout.strip().splitlines()[-1][:200] if p.stdout.strip() else ''
@@ -158,13 +159,89 @@ def run_all(pid: str, mutants, jobs=16):
         return list(ex.map(lambda m: run_mutant(pid, m), mutants))
 
 
-def mutants_for(pid: str):
+def patch_edit(patch_text: str):
+    """edit(source) from a one-file unified diff: every hunk is located by its text (removed lines plus as much of the
+    context as is still there: 3, 2, 1, 0 lines) in the current source, wherever it has moved to (of several copies of the
+    same text the one nearest to the hunk's line); None (-> skipped) when a hunk's text is no longer there."""
+    hunks, cur = [], None
+    for line in patch_text.split('\n'):
+        if line.startswith('@@'):
+            try:
+                at = int(line.split('-')[1].split(',')[0].split()[0])
+            except (IndexError, ValueError):
+                at = 0
+            cur = [('@', at)]
+            hunks.append(cur)
+        elif cur is None or line.startswith('\\') or line.startswith('diff --git'):
+            if line.startswith('diff --git'):
+                cur = None
+            continue
+        elif line[:1] in '+- ':
+            cur.append((line[:1] or ' ', line[1:]))
+        elif line == '':
+            cur.append((' ', ''))
+
+    def edit(src):
+        for h in hunks:
+            at, h = h[0][1], h[1:]
+            while h and h[-1] == (' ', ''):
+                h = h[:-1]
+            ch = [i for i, (t, _) in enumerate(h) if t != ' ']
+            if not ch:
+                continue
+            done = False
+            for k in (3, 2, 1, 0):
+                part = h[max(0, ch[0] - k): ch[-1] + 1 + k]
+                o = '\n'.join(x for t, x in part if t != '+')
+                n = '\n'.join(x for t, x in part if t != '-')
+                if o.strip() and src.count(o) >= 1:
+                    # several copies of the same text (sibling functions): the one nearest to where the hunk was written
+                    pos, occ = -1, []
+                    while (pos := src.find(o, pos + 1)) >= 0:
+                        occ.append(pos)
+                    pos = min(occ, key=lambda q: abs(src.count('\n', 0, q) + 1 - (at + max(0, ch[0] - k))))
+                    src = src[:pos] + n + src[pos + len(o):]
+                    done = True
+                    break
+            if not done:
+                return None
+        try:
+            ast.parse(src)
+        except SyntaxError:
+            return None
+        return src
+    return edit
+
+
+def seed_mutants(pid: str):
+    """The seeded changes of /verif/seeded that the check of `pid` reports (meta.json: verdict caught), as mutants: each must
+    still be reported by (one of) the rule(s) that reported it when it was validated."""
+    out = []
+    for d in sorted((VERIF / 'seeded').glob(f'{pid}_*')):
+        mp, pp = d / 'meta.json', d / 'patch.diff'
+        if not (mp.exists() and pp.exists()):
+            continue
+        meta = json.loads(mp.read_text())
+        v = meta.get('verif', {})
+        if v.get('verdict') != 'caught' or meta.get('property', pid) != pid:
+            continue
+        text = pp.read_text()
+        files = [l.split(' b/', 1)[1] for l in text.split('\n') if l.startswith('diff --git ')]
+        rules = [r.split()[0] for r in v.get('check', {}).get('reported', []) if r.split()]
+        if len(files) != 1 or not rules:
+            continue
+        out.append(Mutant(f'seed:{d.name}', files[0], patch_edit(text), rules[0], 'seeded change', tuple(rules[1:])))
+    return out
+
+
+def mutants_for(pid: str, seeds=True):
     import importlib
     try:
         mod = importlib.import_module(f'selftest.mutants_{pid}')
+        ms = list(mod.MUTANTS)
     except ModuleNotFoundError:
-        return []
-    return mod.MUTANTS
+        ms = []
+    return ms + (seed_mutants(pid) if seeds else [])
 
 
 if __name__ == '__main__':
